@@ -110,7 +110,7 @@ fn case_json(joint: usize, from: f64, to: f64, k: u64) -> Value {
 }
 
 pub fn run(ctx: &Ctx) -> Report {
-    let step_deg: i64 = if ctx.quick() { 5 } else { 3 };
+    let step_deg: i64 = if ctx.quick() { 5 } else { 1 };
     let lo = -360 / step_deg;
     let span = (720 / step_deg + 1) as usize;
     let sizes = [span, span];
